@@ -14,13 +14,13 @@
 (* looking at the code.  TLC compares the two over the whole malformation space                 *)
 (* (CodeEqualsDecl) and checks the one-directional consequences C02 is about.                   *)
 (*                                                                                              *)
-(* As found, the code differed from Decl in three places (all repaired, see KNOWN_FINDINGS):    *)
+(* As found, the code differed from Decl in four places (all repaired, see KNOWN_FINDINGS):     *)
 (* Header.ValidatorsHash was compared with nothing (CheckVHash = FALSE models that), a nil      *)
-(* Header/Data/LastCommit and a commit holding only nil slots made the checks panic.            *)
+(* Header/Data/LastCommit and a commit holding only nil slots made the checks panic, and        *)
+(* VerifyCommit did not compare ValidatorIndex / ValidatorAddress of a precommit (which are not *)
+(* signed) with its slot ("relabelled" votes counted; repaired under C13).                      *)
 (* Oddities kept as they are: block time is not checked (TODO in the code); ProposerAddress may *)
-(* be any validator, not the round's proposer; Commit.BlockID is only required to be non-zero;  *)
-(* ValidatorIndex / ValidatorAddress of a precommit are neither signed nor compared with the    *)
-(* slot ("relabelled" votes count - the slot's key still has to verify the signature).          *)
+(* be any validator, not the round's proposer; Commit.BlockID is only required to be non-zero.  *)
 EXTENDS Integers, FiniteSets, Sequences, TLC
 
 CONSTANTS
@@ -86,7 +86,7 @@ SlotClasses ==
     "otherBlock",  \* valid precommit of i for another block id
     "signedByOther",    \* labelled i, validly signed by validator Other(i)
     "duplicateOfOther", \* the good vote OF validator Other(i) (its labels, its signature) copied into slot i
-    "relabelled" } \* signed by i, but ValidatorIndex/ValidatorAddress name Other(i) (labels are not signed)
+    "relabelled" } \* signed by i, but ValidatorIndex/ValidatorAddress do not name i (labels are not signed)
 
 Other(i) == (i % N) + 1
 
@@ -95,6 +95,7 @@ Rnd(cl) == IF cl = "wrongRound" THEN 1 ELSE 0
 Typ(cl) == IF cl = "wrongType" THEN "pv" ELSE "pc"
 Blk(cl) == CASE cl = "nilvote" -> "nil" [] cl = "otherBlock" -> "other" [] OTHER -> "B"
 SigOK(cl) == cl \notin {"badSig", "signedByOther", "duplicateOfOther"}   \* verifies under the SLOT's key
+LabelOK(cl) == cl \notin {"duplicateOfOther", "relabelled"}            \* index and address are the slot's
 (* the validator whose key produced the signature (0 = nobody) *)
 Signer(i, cl) == CASE cl \in {"signedByOther", "duplicateOfOther"} -> Other(i)
                   [] cl = "badSig" -> 0
@@ -175,12 +176,13 @@ VerifyCommit(b) ==
   ELSE IF Present(s) = {}   THEN "vcHeight"        \* commit.Height() = 0 # Last
   ELSE IF Hgt(s[First(s)]) # "ok" THEN "vcHeight"  \* height != commit.Height()
   ELSE LET r0  == Rnd(s[First(s)])
-           bad == {k \in Present(s) : Hgt(s[k]) # "ok" \/ Rnd(s[k]) # r0 \/ Typ(s[k]) # "pc" \/ ~SigOK(s[k])}
+           bad == {k \in Present(s) : Hgt(s[k]) # "ok" \/ Rnd(s[k]) # r0 \/ Typ(s[k]) # "pc" \/ ~LabelOK(s[k]) \/ ~SigOK(s[k])}
        IN IF bad # {}
             THEN LET k == MinOf(bad)
                  IN IF Hgt(s[k]) # "ok" THEN "vcSlotHeight"
                     ELSE IF Rnd(s[k]) # r0 THEN "vcRound"
                     ELSE IF Typ(s[k]) # "pc" THEN "vcType"
+                    ELSE IF ~LabelOK(s[k]) THEN "vcLabel"
                     ELSE "vcSig"
             ELSE LET tally == PowerOf({k \in Present(s) : Blk(s[k]) = "B"})
                  IN IF tally > (Total * 2) \div 3 THEN "ok" ELSE "vcPower"
@@ -208,7 +210,7 @@ Commitments(b) == b.data = "ok" /\ b.lch = "ok" /\ b.vhash = "ok" /\ b.ntx = "ok
 WellFormed(b)  == b.nilp = "none" /\ b.prop # "outsider"
 
 (* a vote that validator k really cast as a precommit of height Last *)
-Authentic(cl) == Typ(cl) = "pc" /\ Hgt(cl) = "ok" /\ SigOK(cl)
+Authentic(cl) == Typ(cl) = "pc" /\ Hgt(cl) = "ok" /\ SigOK(cl) /\ LabelOK(cl)
 
 DeclCommit(b) ==
   LET s == SlotSeq(b) IN
@@ -273,7 +275,7 @@ CallVerifyCommit(r) ==
 Results == {"ok", "nilPart", "chainID", "height", "numTxs", "lastBlockID", "dataHash", "appHash", "receiptsHash",
             "validatorsHash", "lastCommitHash", "commitNilBlock", "commitEmpty", "commitType", "commitHeight",
             "commitRound", "proposer", "h1Precommits", "commitSize", "vcNilCommit", "vcSize", "vcHeight",
-            "vcSlotHeight", "vcRound", "vcType", "vcSig", "vcPower"}
+            "vcSlotHeight", "vcRound", "vcType", "vcLabel", "vcSig", "vcPower"}
 
 TamperPairs == UNION {{<<FieldSeq[k], v>> : v \in FieldValsC[FieldSeq[k]]} : k \in 1..NF}
 MaxN        == 4
@@ -340,7 +342,7 @@ TamperAnyFieldRejected ==
     /\ ~Accept([blk EXCEPT !.prop = "outsider"])
     /\ ~Accept([blk EXCEPT !.cbid = "zero"]) \/ Last = 0
     /\ Last > 0 =>
-         \A i \in Val : \A cl \in {"wrongHeight", "wrongType", "badSig", "signedByOther", "duplicateOfOther"} :
+         \A i \in Val : \A cl \in {"wrongHeight", "wrongType", "badSig", "signedByOther", "duplicateOfOther", "relabelled"} :
             ~Accept([blk EXCEPT !.slots[i] = cl])
 
 ==================================================================================
